@@ -178,6 +178,7 @@ type Scenario struct {
 	NeedTag  bool
 	NeedKf   bool
 	NeedFf   bool
+	NeedFa   bool
 	OnlyHReq bool // every rule gets by with the injected names H and Req (the two-object pool method can be used)
 	DoMgmt   func(op int)
 }
@@ -194,7 +195,7 @@ func (sc *Scenario) Index() {
 			switch s.Kind {
 			case SecY, SecCall, SecAsgCall, SecLocal, SecReader, SecIfCall, SecUpd:
 			case SecConc:
-				if s.Arg&(1<<ChAsgField|1<<ChFunc) != 0 || ConcExtras(s.Arg) > 0 {
+				if s.Arg&(1<<ChAsgField|1<<ChFunc|1<<ChAsgBad) != 0 || ConcExtras(s.Arg) > 0 {
 					sc.OnlyHReq = false
 				}
 			default:
@@ -211,6 +212,9 @@ func (sc *Scenario) Index() {
 			}
 			if s.Kind == SecFuncCall || s.Kind == SecIfFunc {
 				sc.NeedFf = true
+			}
+			if s.Kind == SecFnArgKind || s.Kind == SecFnArgCount {
+				sc.NeedFa = true
 			}
 		}
 	}
